@@ -36,6 +36,7 @@
 import QV.Proofs.ServerAnswer
 import QV.Proofs.ServerAnswerCap
 import QV.Proofs.ServerAnswerEntry
+import QV.Proofs.ServerAnswerTypes
 import QV.Proofs.WriterFaithful
 
 namespace QV.C05
@@ -413,5 +414,75 @@ theorem C05_after_scan
       = View.ofResolution (specResolve (specBuild eqv ⟨apex, cls, glue, []⟩ rs) (fold qn) qtype) :=
   C05 eqv apex cls glue rs qn qtype tr _ ha hawf hqwf hq
     (C05_entry_state_handle_message bufLen tr payload id opcode rd hbuf hpay hpay16 q qn hp hw hl hqwf e l hl1 hl2) hnt
+
+open QV.ServerScan QV.ServerTsig in
+/-- **C05 on the state the TSIG continuation hands over** (authenticated signed requests):
+    `QV.ServerScan.tsigProcess_some_state` shows that after a successful `verify_request` the writer
+    is `withTsig (stRcode 0 S0) (.response alg requestMac key) (prepOf keyName tsig now 0)` with
+    `TsigFits`, `S0` being the scan state of `C05_after_scan`; that state is `QueryReady`
+    (`queryReady_signed_state`), so `C05` applies with no hypothesis on the writer left -/
+theorem C05_after_scan_signed
+    (eqv : Eqv) (apex : NameL.Name) (cls : Nat) (glue : GluePolicy) (rs : List Rec) (qtype : Nat) (tr : Transport)
+    (bufLen payload id opcode : Nat) (rd : Bool)
+    (hbuf : minBuf tr payload ≤ bufLen) (hpay : 512 ≤ payload) (hpay16 : payload ≤ 65535)
+    (q : Spec.DQuestion) (qn : WName) (hp : WName.parse q.qname = some (qn, [])) (hw : qn.wire = q.qname)
+    (hl : q.qname.length ≤ 255) (hqwf : qn.WF) (e : Bool) (l : Nat) (hl1 : 512 ≤ l) (hl2 : l ≤ max 512 payload)
+    (alg : Hmac.Alg) (mac secret : List UInt8) (t : Tsig.ReadTsigRr) (kn : WName) (nowT : Tsig.TimeSigned)
+    (hkn : WName.parse t.keyName = some (kn, []))
+    (hfit : TsigFits (stRcode 0 (arSt (qSt (hdrSt (ServerScan.w0 bufLen (lim0 tr)) id opcode rd) (some q)) tr payload e l))
+      (.response (toWriterAlg alg) mac secret) (prepOf kn t nowT 0))
+    (ha : Folded apex) (hawf : (unfold apex).WF) (hq : apex <:+ fold qn)
+    (hnt : NoTruncation (handleNonAxfrQueryL (build eqv (Zone.new apex cls glue) rs) qn qtype tr
+      ⟨withTsig (stRcode 0 (arSt (qSt (hdrSt (ServerScan.w0 bufLen (lim0 tr)) id opcode rd) (some q)) tr payload e l))
+        (.response (toWriterAlg alg) mac secret) (prepOf kn t nowT 0), []⟩).2.log) :
+    (handleNonAxfrQueryL (build eqv (Zone.new apex cls glue) rs) qn qtype tr
+      ⟨withTsig (stRcode 0 (arSt (qSt (hdrSt (ServerScan.w0 bufLen (lim0 tr)) id opcode rd) (some q)) tr payload e l))
+        (.response (toWriterAlg alg) mac secret) (prepOf kn t nowT 0), []⟩).1 = .ok () ∧
+    view (handleNonAxfrQueryL (build eqv (Zone.new apex cls glue) rs) qn qtype tr
+      ⟨withTsig (stRcode 0 (arSt (qSt (hdrSt (ServerScan.w0 bufLen (lim0 tr)) id opcode rd) (some q)) tr payload e l))
+        (.response (toWriterAlg alg) mac secret) (prepOf kn t nowT 0), []⟩).2.log
+      = View.ofResolution (specResolve (specBuild eqv ⟨apex, cls, glue, []⟩ rs) (fold qn) qtype) :=
+  C05 eqv apex cls glue rs qn qtype tr _ ha hawf hqwf hq
+    (queryReady_signed_state bufLen tr payload id opcode rd hbuf hpay hpay16 q qn hp hw hl hqwf e l hl1 hl2
+      alg mac secret t kn nowT hkn hfit) hnt
+
+/-! ### what can enter the additional section (used by C09)
+
+  Every record the answering phase adds to the *additional* section is an address record: the only
+  `add_additional_rrset` calls of query.rs are those of `add_additional_addresses`, with type A, or
+  AAAA in class IN. This holds for every zone tree (API-built or not), every query and every writer
+  behaviour — so no OPT- or TSIG-typed record stored in a zone can reach the additional section
+  (such a record can only be *answered*: it then sits in the answer section). -/
+
+/-- on the calls: every logged `add_additional_*` call of the answering logic has type A or AAAA -/
+theorem C09_answer_phase_additional_calls (z : Zone.Zone) (qname : WName) (qtype : Nat) (ps : PS) :
+    ∃ evs, (inner z qname qtype ps).2.log = ps.log ++ evs ∧
+      ∀ a, Ev.add a ∈ evs → a.sec = .additional → a.ty = 1 ∨ a.ty = 28 := by
+  obtain ⟨evs, hl, hP, _⟩ := LogsT.inner z qname qtype ps
+  exact ⟨evs, hl, fun a ha hs => hP _ ha a rfl hs⟩
+
+/-- **on the view**: the additional section that `handle_non_axfr_query` builds holds only records
+    of type 1 (A) or 28 (AAAA) -/
+theorem C09_answer_phase_additional_is_address_only (z : Zone.Zone) (qname : WName) (qtype : Nat) (tr : Transport)
+    (w : Writer.State) (hnb : NoBad (handleNonAxfrQueryL z qname qtype tr ⟨w, []⟩).2.log) :
+    ∀ r ∈ (view (handleNonAxfrQueryL z qname qtype tr ⟨w, []⟩).2.log).additional, r.rtype = 1 ∨ r.rtype = 28 := by
+  obtain ⟨hlog, _⟩ := handle_log z qname qtype tr ⟨w, []⟩ hnb
+  obtain ⟨evs, hl, hP, _⟩ := LogsT.inner z qname qtype ⟨w, []⟩
+  simp only [List.nil_append] at hl
+  apply view_additional_types
+  rw [hlog, hl]
+  intro e he
+  rcases List.mem_append.mp he with h | h
+  · exact hP e h
+  · -- the epilogue logs header operations only
+    intro a ha
+    subst ha
+    rcases hr : (inner z qname qtype ⟨w, []⟩).1 with u | x | _
+    · rw [hr] at h; simp [tailEvs] at h
+    · rw [hr] at h
+      cases x with
+      | servFail => simp [tailEvs] at h
+      | truncation => simp only [tailEvs] at h; split at h <;> simp at h
+    · rw [hr] at h; simp [tailEvs] at h
 
 end QV.C05
